@@ -1,6 +1,7 @@
 package mc
 
 import (
+	"strings"
 	"encoding/binary"
 	"fmt"
 	"sort"
@@ -92,6 +93,14 @@ func (f *confFold) fold(e *pb.Entry) string {
 	}
 	n, err := prev.ApplyV2(int(v2.GetTransition()), toChanges(v2.GetChanges()))
 	if err != nil {
+		// an invalid change is cancelled by every application (applied with node id 0): the
+		// configuration stays what it was. Removing the last voter is the one kind of
+		// invalid change raft's propose-time checks cannot exclude; anything else is reported.
+		f.at = append(f.at, idx)
+		f.cfg = append(f.cfg, prev)
+		if strings.Contains(err.Error(), "removed all voters") {
+			return ""
+		}
 		return fmt.Sprintf("reference model rejects the committed change at %d: %v", idx, err)
 	}
 	f.at = append(f.at, idx)
